@@ -65,9 +65,9 @@ BOUNDED_NOTE = " Bounded stand-ins (never counted as proved): the same clauses c
 claim("C01", "Chain of contracts: P3 on each compute_domains_X under contract; BC/shaving satisfy the ConsistencyAlg interface (BOUND only when every domain is a point, domains only shrink, lower levels untouched); "
       "solve_one returns exactly get_solution of a BOUND state (value = shared domain + offset) and, on a fresh solver, inside the root domains; reducers and workers pass solutions through unchanged. "
       "Acceptance theorem (semantic layer: ghost assignment sigma, uninterpreted relation Rel(p, .) per posted constraint, propagator interface P3/P4), for problems whose constraints watch MIN and MAX of all their variables (full masks) "
-      "solved with the bound consistency algorithm: bound_consistency_algorithm#acc keeps K (an enabled constraint whose variables are all instantiated to sigma holds on sigma unless it is queued) and J (a disabled constraint holds on every point of the box) "
+      "solved with either shipped consistency algorithm (interface ConsistencyAlgAcc, implemented by bound_consistency_algorithm#acc and shaving_consistency_algorithm#acc over shave_bound#acc): bound_consistency_algorithm#acc keeps K (an enabled constraint whose variables are all instantiated to sigma holds on sigma unless it is queued) and J (a disabled constraint holds on every point of the box) "
       "and at its fixpoint every enabled instantiated constraint holds; solve_one#acc carries K/J per stack level through branching (C09 contract) and backtracking (C09.wake), so the assignment it returns satisfies every posted relation; "
-      "BacktrackSolver.solve#acc / solve_and_queue#acc assert it at the yield / queue.put, optimize#minacc/#maxacc for the returned optimum. Partial wake-up masks (per-propagator get_triggers adequacy), shaving and Problem.init stay with the bounded engine suite.",
+      "BacktrackSolver.solve#acc / solve_and_queue#acc assert it at the yield / queue.put, optimize#minacc/#maxacc for the returned optimum. Partial wake-up masks (per-propagator get_triggers adequacy) and Problem.init stay with the bounded engine suite.",
       "contract-based deductive verification + bounded engine suite", level="other")
 claim("C02", "Loop contracts of solve_one / BacktrackSolver.solve: each search resumes from a well-formed stack, the branching contract (C09) partitions, the variable heuristics return an open decision domain or -1 only when none is left, "
       "exhaustion is reported only with an empty stack; stack levels stay pairwise separated on the recorded split domain; semantic layer (ghost solution sigma, uninterpreted relations): BC and shaving keep every solution of the box, "
